@@ -140,6 +140,18 @@ def instances(tier, seed):
           idx.append((int(a), int(b), int(c), int(e)))
       inst['quad_idx'] = idx
     out.append(inst)
+  # many features with a prior in large / small units: det(M) leaves the binary64 range (1e4^80) while log det M, the documented
+  # regulariser, is an ordinary number -- the learner must still descend from the prior and stop only at a stationary point
+  for j, unit in enumerate((1e4, 1e-4)):
+    d = 80
+    X = rng.randn(d + 12, d)
+    idx = []
+    while len(idx) < 40:
+      a, b, c, e = rng.randint(0, d + 12, 4)
+      if a != b and c != e:
+        idx.append((int(a), int(b), int(c), int(e)))
+    out.append(dict(k=n + 1 + j, d=d, prior='array', prior_array=(spd_from(rng, d, 10.0) * unit).tolist(), weights_kind='none', max_iter=25, tol=1e-3,
+                    supervised=False, quads_kind='mostly-violated', random_state=0, wseed=int(rng.randint(0, 2 ** 31 - 1)), X=X.tolist(), quad_idx=idx))
   if INCLUDE_COLLAPSED:
     d = 3
     X = rng.randn(8, d)
